@@ -213,6 +213,44 @@ def run_group(ctx, hszinc, pos, payloads, ver, mname, label):
                       {'pos': pos, 'ver': ver, 'mode': mname, 'payloads': [D._enc_s(p2)]})
 
 
+def scalar_api(ctx, hszinc, payloads, label):
+    """The same payloads through the scalar-level entry points: dump_scalar -> parse_scalar, text and bytes input."""
+    import json as _json
+    for pos in SCALAR_POS:
+        for mname, mode in (('zinc', hszinc.MODE_ZINC), ('json', hszinc.MODE_JSON)):
+            n = 0
+            for p in payloads:
+                if pos == 'uri-cell' and p == '':
+                    continue
+                ver = '3.0'
+                v = make_value(hszinc, pos, p)
+                n += 1
+                try:
+                    text = hszinc.dump_scalar(v, mode=mode, version=hszinc.Version(ver))
+                    forms = [text]
+                    if isinstance(text, str) and not any(0xd800 <= ord(c) <= 0xdfff for c in text):
+                        forms.append(text.encode('utf-8'))
+                    if mname == 'json' and isinstance(text, str):
+                        forms.append(_json.dumps(text))           # the JSON-text form of the same scalar
+                    bad = None
+                    for form in forms:
+                        back = hszinc.parse_scalar(form, mode=mode, version=ver)
+                        bad = same_value(hszinc, pos, p, back)
+                        if bad:
+                            bad = (bad, '%r -> %r -> %r' % (p, form, back))
+                            break
+                except Exception as e:   # noqa
+                    bad = ('scalar-api-raises:' + type(e).__name__, '%r: %s' % (p, str(e)[:100]))
+                if bad:
+                    ctx.violation({'part': 'scalar-api', 'format': mname, 'position': pos, 'kind': pos.split('-')[0], 'symptom': bad[0],
+                                   'features': sorted(D.text_features(p))},
+                                  'scalar API: payload %s' % bad[1], {'pos': pos, 'ver': ver, 'mode': mname, 'payloads': [D._enc_s(p)], 'scalar': True})
+                    break
+            ctx.count('scalar-API round trips %s %s %s' % (label, pos, mname), n)
+            ctx.evaluations += n
+            ctx.cls('scalar-api', pos, mname, label)
+
+
 def codepoints(lo, hi, step=1):
     return [chr(c) for c in range(lo, hi, step)]
 
@@ -234,6 +272,9 @@ def shards(tier, seed):
         out.append({'part': 'meta', 'maxlen': 2, 'positions': POSITIONS[5:7], 'modes': ['zinc', 'json']})
         out.append({'part': 'meta', 'maxlen': 2, 'positions': POSITIONS[7:], 'modes': ['zinc', 'json']})
         out.append({'part': 'look', 'positions': POSITIONS, 'modes': ['zinc', 'json'], 'random': 300})
+        for k in range(4):
+            out.append({'part': 'scalar-cp', 'lo': k * 0x4000, 'hi': (k + 1) * 0x4000, 'step': 1})
+        out.append({'part': 'scalar-cp', 'lo': 0x10000, 'hi': 0x110000, 'step': 64})
     else:
         for pos in POSITIONS:
             for k in range(17):
@@ -243,6 +284,8 @@ def shards(tier, seed):
             out.append({'part': 'meta', 'maxlen': 3, 'positions': [pos], 'modes': ['zinc']})
         out.append({'part': 'meta', 'maxlen': 3, 'positions': POSITIONS, 'modes': ['json']})
         out.append({'part': 'look', 'positions': POSITIONS, 'modes': ['zinc', 'json'], 'random': 4000})
+        for k in range(17):
+            out.append({'part': 'scalar-cp', 'lo': k * 0x10000, 'hi': (k + 1) * 0x10000, 'step': 1})
     return out
 
 
@@ -272,6 +315,12 @@ def run_shard(spec, ctx):
         if spec['lo'] == 0:
             ctx.sample({'position': pos, 'format': mname, 'payloads': 'U+%04X..U+%04X step %d' % (spec['lo'], spec['hi'] - 1, spec['step']),
                         'example_text': hszinc.dump(build(hszinc, pos, ['"', '\n', u'\u20ac'], vers[-1])[0], mode=hszinc.MODE_ZINC if mname == 'zinc' else hszinc.MODE_JSON)[:300]})
+    elif spec['part'] == 'scalar-cp':
+        cps = codepoints(spec['lo'], spec['hi'], spec['step'])
+        scalar_api(ctx, hszinc, cps, 'code points')
+        ctx.count('scalar-API code points visited', len(cps))
+        ctx.sample({'scalar_api': 'dump_scalar -> parse_scalar for U+%04X..U+%04X step %d, 4 kinds x 2 formats x text/bytes input' % (
+            spec['lo'], spec['hi'] - 1, spec['step'])})
     elif spec['part'] == 'meta':
         strings = []
         for n in range(1, spec['maxlen'] + 1):
@@ -284,6 +333,8 @@ def run_shard(spec, ctx):
                     run_group(ctx, hszinc, pos, strings[gi:gi + G], vers[(gi // G) % len(vers)], mname, 'metachar strings')
                 ctx.count('distinct metachar-string cases', len(strings))
                 ctx.cls('metachar', pos, mname, 'len<=%d' % spec['maxlen'])
+        if 'str-cell' in spec['positions']:
+            scalar_api(ctx, hszinc, strings, 'metachar strings')
         ctx.sample({'metachar_strings': len(strings), 'alphabet': [repr(m) for m in META]})
     else:
         r = random.Random(ctx.seed * 1000003 + 808)
@@ -299,12 +350,18 @@ def run_shard(spec, ctx):
                     run_group(ctx, hszinc, pos, payloads[gi:gi + 64], vers[(gi // 64) % len(vers)], mname, 'look-alikes+random')
                 ctx.count('distinct look-alike/random cases', len(payloads))
                 ctx.cls('lookalike', pos, mname)
+        scalar_api(ctx, hszinc, list(LOOKALIKES) + D.STR_CORE + rnd[:200] + [p + ws for p in ('', 'a', ' ') for ws in
+                   (' ', '\t', '\n', '\r', '\x0b', '\x0c', '\x1c', '\x1f', u'\x85', u'\xa0', u'\u2028', u'\u3000', '  ')] +
+                   [ws + 'a' for ws in (' ', '\t', '\n', u'\xa0', u'\u2028')], 'look-alikes+random+edge-whitespace')
         ctx.sample({'lookalikes': LOOKALIKES[:12]})
 
 
 def replay(case, ctx):
     import hszinc
     payloads = [D._dec_s(p) for p in case['payloads']]
+    if case.get('scalar'):
+        scalar_api(ctx, hszinc, payloads, 'replay')
+        return
     run_group(ctx, hszinc, case['pos'], payloads, case['ver'], case['mode'], 'replay')
 
 
